@@ -29,6 +29,7 @@ class Effects:
     def __init__(self, prog):
         self.prog = prog
         self.summary = {}
+        self.kinds = {}      # body id -> {(param, path): set of ('v', Variant) | 'other'}
         self.callees = {}
         self._compute()
 
@@ -59,6 +60,11 @@ class Effects:
         changed = True
         writes = set()
         callees = set()
+        kinds = {}
+
+        def addw(w, kind):
+            writes.add(w)
+            kinds.setdefault(w, set()).add(kind)
         it = 0
         while changed and it < 10:
             changed = False
@@ -115,6 +121,13 @@ class Effects:
                             if not add <= cur:
                                 cur |= add
                                 changed = True
+        # temporaries holding freshly built enum values: _x = Enum::Variant{..}
+        tempkind = {}
+        for blk in body.blocks:
+            for s in blk["stmts"]:
+                if s["k"] == "assign" and not s["place"]["proj"] and s["rv"]["k"] == "aggregate" \
+                        and s["rv"].get("agg") == "adt" and s["rv"].get("is_enum"):
+                    tempkind.setdefault(s["place"]["local"], set()).add(("v", s["rv"]["variant"]))
         # stores
         for blk in body.blocks:
             if blk["cleanup"]:
@@ -122,8 +135,18 @@ class Effects:
             for s in blk["stmts"]:
                 pl = s["place"]
                 if pl["local"] in derived and any(e["k"] == "deref" for e in pl["proj"]):
+                    kind = "other"
+                    if s["k"] == "set_discriminant":
+                        kind = ("v", s["variant"])
+                    elif s["rv"]["k"] == "aggregate" and s["rv"].get("agg") == "adt" and s["rv"].get("is_enum"):
+                        kind = ("v", s["rv"]["variant"])
+                    ks = [kind]
+                    if s["k"] == "assign" and s["rv"]["k"] == "use" and s["rv"]["op"]["k"] in ("copy", "move") \
+                            and not s["rv"]["op"]["place"]["proj"] and s["rv"]["op"]["place"]["local"] in tempkind:
+                        ks = list(tempkind[s["rv"]["op"]["place"]["local"]])
                     for p, path in derived[pl["local"]]:
-                        writes.add((p, path + _fields(pl)))
+                        for kk in ks:
+                            addw((p, path + _fields(pl)), kk)
             t = blk["term"]
             if t["k"] != "call":
                 continue
@@ -140,7 +163,8 @@ class Effects:
                         a = t["args"][pi - 1]
                         if a["k"] in ("copy", "move") and a["place"]["local"] in derived:
                             for p, path in derived[a["place"]["local"]]:
-                                writes.add((p, path + _fields(a["place"]) + cpath))
+                                for kind in self.kinds.get(local_body.id, {}).get((pi, cpath), {"other"}):
+                                    addw((p, path + _fields(a["place"]) + cpath), kind)
             else:
                 path_s = short(callee_path(t) or "<indirect>")
                 for a in t["args"]:
@@ -150,7 +174,7 @@ class Effects:
                             if path_s in _FOREIGN_NO_WRITE:
                                 continue
                             for p, path in derived[a["place"]["local"]]:
-                                writes.add((p, path + _fields(a["place"]) + ("<%s>" % path_s,)))
+                                addw((p, path + _fields(a["place"]) + ("<%s>" % path_s,)), "other")
                 # closures passed to foreign combinators: their summaries apply to captured refs
                 for a in t["args"]:
                     if a["k"] in ("copy", "move"):
@@ -163,8 +187,9 @@ class Effects:
                                         for p, path in derived[a["place"]["local"]]:
                                             for (pi, cpath) in self.summary[cb.id]:
                                                 if pi == 1:
-                                                    writes.add((p, path + cpath))
+                                                    addw((p, path + cpath), "other")
         self.callees[body.id] = callees
+        self.kinds[body.id] = kinds
         return writes
 
     def writes_through(self, body, param=1):
